@@ -59,7 +59,8 @@ type Failure struct {
 	Decs    []*decision
 	Known   []string // known-finding regions active on the path
 	Stack   []string
-	Blocked []string // parked goroutines at the time of the failure: "<function>:<op>"
+	Blocked []string             // parked goroutines at the time of the failure: "<function>:<op>"
+	Gids    map[uint32][2]uint32 // goroutine id -> (parent id, n-th goroutine started by the parent)
 }
 
 func (e *Engine) posStr(p token.Pos) string {
@@ -266,7 +267,7 @@ func (e *Engine) runTopDefer(w *Worker, st *State, g *G, fr *Frame) {
 		return
 	}
 	if intr := e.intrinsicFor(fn); intr != nil {
-		inline(func() { intr(&icall{e: e, w: w, st: st, g: g, fn: fn, args: d.Args, kind: fkDefer}) })
+		inline(func() { intr(&icall{e: e, w: w, st: st, g: g, fn: fn, args: d.Args, kind: fkDefer, posOverride: d.Pos}) })
 		return
 	}
 	pop()
@@ -531,7 +532,7 @@ func (e *Engine) execInstr(w *Worker, st *State, g *G, fr *Frame, instr ssa.Inst
 		fr.PC++
 	case *ssa.Defer:
 		c, args := e.resolveCallee(w, st, g, fr, &in.Call)
-		fr.Defers = append(fr.Defers, deferred{Fn: c, Args: args})
+		fr.Defers = append(fr.Defers, deferred{Fn: c, Args: args, Pos: in.Pos()})
 		fr.PC++
 	case *ssa.Extract:
 		e.set(fr, in, e.get(st, g, fr, in.Tuple).(Tuple)[in.Index])
@@ -1487,6 +1488,16 @@ func (e *Engine) spawn(w *Worker, st *State, g *G, c *Closure, args []Value, pos
 		}()
 		e.pushCall(w, st, ng, c, args, fkRoot, pos)
 	}()
+}
+
+func (e *Engine) gidTable() map[uint32][2]uint32 {
+	e.gidMu.Lock()
+	defer e.gidMu.Unlock()
+	out := make(map[uint32][2]uint32, len(e.gids))
+	for k, id := range e.gids {
+		out[id] = k
+	}
+	return out
 }
 
 func (e *Engine) internG(parent, n uint32) uint32 {
